@@ -90,6 +90,18 @@ Theorem C11_every_operation_completes : forall seq ops sched,
 Proof. exact every_operation_completes. Qed.
 Print Assumptions C11_every_operation_completes.
 
+(* bounded steps per item: while an iterator's cursor i is unchanged each of its steps strictly decreases
+   rank (<= 70); i changes only in `i += 1` right after a yield: the next value (or the end) comes within
+   71 own steps, for every |seq| and whatever other threads do (they may delay it only while holding the
+   lock, at most 31 of their own steps: C11_bounded_lock_hold) *)
+Theorem C11_steps_per_item_bounded : forall seq s t th s' th',
+  shared_inv seq s -> thread_inv seq s th ->
+  step_thread seq true false s t th = Some (s', th') ->
+  t_i th' = t_i th -> t_pc th' <> PDone -> t_pc th' <> PRetLen ->
+  (rank (t_pc th') < rank (t_pc th) <= 70)%nat.
+Proof. exact steps_per_item_bounded. Qed.
+Print Assumptions C11_steps_per_item_bounded.
+
 (* the fuelled drivers of single-threaded histories (RCacheModel.run_next / run_done, used by the
    extracted oracle with this fuel) never run out of fuel and never deadlock from a quiescent state *)
 Theorem C11_history_drivers_total : forall seq st t th have,
